@@ -837,12 +837,12 @@ class Synset(_Relatable):
                 for row in local_ss_rows:
                     yield synset_rel, Synset(*row, _wordnet=_wn)
             else:
-                # in a wordnet restricted to some lexicons, an inferred
-                # synset is the same whichever lexicon it is reached from
+                # an inferred synset is the same whichever of the lexicons
+                # searched for it (the first being a base) it is reached from
                 synset = Synset.empty(
                     id=_INFERRED_SYNSET,
                     ili=ili,
-                    _lexid=self._lexid if _wn._default_mode else lexids[0],
+                    _lexid=min(lexids),
                     _wordnet=_wn,
                 )
                 yield synset_rel, synset
